@@ -395,9 +395,8 @@ fn spawn_logical<F: FnOnce() + Send + 'static>(f: F, first: bool) -> usize {
     rt.threads.len() - 1
   });
   OS_LIVE.fetch_add(1, ss::atomic::Ordering::SeqCst);
-  let h = std::thread::Builder::new()
-    .stack_size(16 << 20)
-    .spawn(move || {
+  // (the body is kept in a shared cell so that a failed OS-level spawn - EAGAIN / ENOMEM on a loaded machine - can be retried)
+  let body: Arc<ss::Mutex<Option<Box<dyn FnOnce() + Send>>>> = Arc::new(ss::Mutex::new(Some(Box::new(move || {
       TID.with(|t| t.set(Some(tid)));
       if !first {
         baton.take();
@@ -444,8 +443,27 @@ fn spawn_logical<F: FnOnce() + Send + 'static>(f: F, first: bool) -> usize {
       }
       TID.with(|t| t.set(None));
       OS_LIVE.fetch_sub(1, ss::atomic::Ordering::SeqCst);
-    })
-    .unwrap();
+    }))));
+  let mut tries = 0;
+  let h = loop {
+    let b = body.clone();
+    let r = std::thread::Builder::new().stack_size(16 << 20).spawn(move || {
+      let f = b.lock().unwrap_or_else(|e| e.into_inner()).take();
+      if let Some(f) = f {
+        f()
+      }
+    });
+    match r {
+      Ok(h) => break h,
+      Err(e) => {
+        tries += 1;
+        if tries > 1200 {
+          panic!("cannot spawn an OS thread for a logical thread: {e}");
+        }
+        std::thread::sleep(Duration::from_millis(50));
+      }
+    }
+  };
   LAST_SPAWNED.with(|t| *t.borrow_mut() = Some(h.thread().clone()));
   OS_HANDLES.lock().unwrap_or_else(|e| e.into_inner()).push(h);
   tid
